@@ -66,6 +66,10 @@ package memfs
 //@   ensures[C01] result("vfs.searchNode#0", 3) != vfs.err.FileExists ==> lerr(r0, result("vfs.searchNode#0", 3))
 //@   ensures[C01] r0 == nil ==> ncalls(vfs.searchNode) == 2 && notExist(vfs, result("vfs.searchNode#1", 3)) && walkLast(result("vfs.searchNode#1", 2))
 //@   ensures[C01] r0 == nil ==> result("vfs.searchNode#0", 1) is *fileNode
+// link(2) resolves the new name whatever the type of the source: its errors come before EPERM.
+//@   ensures[C01] result("vfs.searchNode#0", 3) == vfs.err.FileExists ==> ncalls(vfs.searchNode) == 2
+//@   ensures[C01] ncalls(vfs.searchNode) == 2 && result("vfs.searchNode#1", 3) == vfs.err.FileExists && vfs.osType != avfs.OsWindows ==> lerr(r0, vfs.err.FileExists)
+//@   ensures[C01] ncalls(vfs.searchNode) == 2 && vfs.osType != avfs.OsWindows && result("vfs.searchNode#1", 0) != nil && result("vfs.searchNode#1", 3) != vfs.err.FileExists && !(notExist(vfs, result("vfs.searchNode#1", 3)) && walkLast(result("vfs.searchNode#1", 2))) ==> lerr(r0, result("vfs.searchNode#1", 3))
 
 // unlink(2), rmdir(2) through os.Remove: the walk decides; ENOTEMPTY for a directory with entries.
 //@ func (*MemFS).Remove
